@@ -348,8 +348,28 @@ def operators(prog, chk):
         chk.ob(tbl == words, "A15.operator-wiring", f"{ty}:words", b.where(), f"operator words {sorted(words)} select the like-named {ty} variants", f"{ty}::from_str maps {tbl} (expected {words})")
 
 
-def _strmatch_variants(owner):
+def _table_variants(prog, owner):
+    """name -> variant from a constant table of (name, Variant) pairs the function looks the name up in
+    (`const NAMES: &[(&str, Function)] = &[("abs", Function::Abs), ..]`)"""
+    consts = {h_["path"]: h_ for h_ in prog.hir.values() if isinstance(h_, dict) and h_.get("kind") in ("Const", "Static", "AssocConst") and isinstance(h_.get("body"), dict)}
     tbl = {}
+    for n in hirq.exprs(owner["body"], "Path"):
+        c = consts.get((n.get("res") or {}).get("path", ""))
+        if c is None:
+            continue
+        for t in hirq.exprs(c["body"], "Tup"):
+            its = t.get("items", [])
+            if len(its) == 2 and isinstance(hirq.lit_str(its[0]), str) and its[1].get("k") == "Path":
+                r = its[1].get("res") or {}
+                if str(r.get("dk", "")).startswith("Ctor") or "Variant" in str(r.get("dk", "")):
+                    tbl[hirq.lit_str(its[0])] = r.get("path", "").split("::")[-1]
+    return tbl
+
+
+def _strmatch_variants(owner, prog=None):
+    tbl = {}
+    if prog is not None and not list(hirq.str_matches(owner)):
+        return _table_variants(prog, owner)
     for m, arms in hirq.str_matches(owner):
         for ls, a in arms:
             vs = [((n.get("res") or {}).get("path", "").split("::")[-1]) for n in hirq.exprs(a["body"], "Path") if (n.get("res") or {}).get("dk", "").startswith("Ctor") or "Variant" in (n.get("res") or {}).get("dk", "")]
@@ -364,7 +384,7 @@ def _strmatch_variants(owner):
 def extract_functions(prog):
     """{name: {variant, accessor(s), primitives}} from Function::from_str and eval_function"""
     fs = prog.body("<svgdx::functions::Function as std::str::FromStr>::from_str")
-    names = _strmatch_variants(prog.hir[fs.id])
+    names = _strmatch_variants(prog.hir[fs.id], prog)
     ef = prog.body("svgdx::functions::eval_function")
     arms = _arms_by_variant(prog.hir[ef.id])
     out = {}
